@@ -94,12 +94,80 @@ def programs(tier):
     return out
 
 
+def generated(count, seed):
+    """on-error trees from a small grammar (deterministic in ``seed``): elements nested up to depth 3, any of
+    them guarded (text / structure fallback, fallback reading error.type), carrying define / condition / repeat /
+    omit-tag / attributes / content; up to 3 evaluation points L(k), each of which the solver lets succeed or
+    fail with one of two exception classes; probes of defined names after the elements."""
+    import random
+    rnd = random.Random(13000 + seed)
+    out = []
+    for n in range(count):
+        state = {'k': 0}
+        vars_ = []
+
+        def leaf():
+            if state['k'] >= 3:
+                return 'txt'
+            k = state['k']
+            state['k'] += 1
+            vars_.append([k, 'out3', k])
+            return L(k)
+
+        def element(depth):
+            tag = rnd.choice(['a', 'b', 'c', 'd'])
+            e = {'tag': tag, 'children': []}
+            if rnd.random() < 0.55:
+                e['onerror'] = rnd.choice([['text', py("'E%d'" % depth)], ['structure', py("'<s>E</s>'")],
+                                           ['text', py('error.type.__name__')]])
+            if rnd.random() < 0.3:
+                e['static'] = [['class', 'k%d' % depth]]
+            st = rnd.choice(['none', 'none', 'define', 'condition', 'repeat', 'omit', 'attributes', 'content'])
+            if st == 'define':
+                e['define'] = [['local', 'w', py('%d' % (depth + 1))]]
+            elif st == 'condition':
+                e['condition'] = py('cv')
+            elif st == 'repeat':
+                e['repeat'] = ['x', py('seq')]
+                e['indent'] = 2 * depth + 2
+            elif st == 'omit':
+                e['omit'] = ''
+            elif st == 'attributes' and state['k'] < 3:
+                k = state['k']
+                state['k'] += 1
+                vars_.append([k, 'out3', k])
+                e['attributes'] = [['title', py('L(%d)' % k)]]
+            kids = [rnd.choice(['p', 'q ', ''])]
+            for _ in range(rnd.choice([1, 2, 2, 3])):
+                r = rnd.random()
+                if r < 0.45:
+                    kids.append(leaf())
+                elif r < 0.8 and depth < 2:
+                    kids.append(element(depth + 1))
+                else:
+                    kids.append(rnd.choice(['t', 'u ']))
+            if st == 'content' and state['k'] < 3:
+                k = state['k']
+                state['k'] += 1
+                vars_.append([k, 'out3', k])
+                e['content'] = ['text', py('L(%d)' % k)]
+            e['children'] = [c for c in kids if c != '']
+            return e
+        probe = {'tag': 'u', 'children': ['w=', {'interp': {'pipe': [py('show(w)'), py("'U'")]}}]}
+        tree = doc(element(0), 'mid', element(0), probe)
+        vs = vars_ + [['cv', 'bool', 4], ['seq', 'lenN', 4]]
+        out.append(('gen-%d-%d' % (seed, n), tree, vs))
+    return out
+
+
 def plan(tier, seed):
     quick = tier == 'quick'
     jobs = []
     for label, prog, vars_ in programs(tier):
         jobs.append({'prog': prog, 'vars': vars_, 'label': label, 'handler': True,
                      'i18n': label.startswith('in-')})
+    for label, prog, vars_ in generated(24 if quick else 400, seed):
+        jobs.append({'prog': prog, 'vars': vars_, 'label': label, 'handler': True, 'i18n': False})
     single = jobs[0]
     fam = dict(name='on_error_templates', module=HG, fn='H', jobs=jobs, timeout=300 if quick else 900,
                batch=2, vacuity=2, program_key='prog',
@@ -110,7 +178,7 @@ def plan(tier, seed):
         functions=['chameleon.compiler:Compiler.visit_OnError', 'chameleon.zpt.program:MacroProgram.visit_element',
                    'chameleon.tal:ErrorInfo', 'chameleon.zpt.template:PageTemplate.render',
                    'chameleon.template:BaseTemplate.render'],
-        bounds=('%d templates: on-error on single / nested (depth <= %d) / sibling elements, with omit-tag, repeat, '
+        bounds=('%d templates (the hand-written ones plus trees generated from a grammar: elements nested to depth 3, any of them guarded, with define / condition / repeat / omit-tag / attributes / content and up to 3 evaluation points): on-error on single / nested (depth <= %d) / sibling elements, with omit-tag, repeat, '
                 'define+condition, tal:attributes, tal:content, text/structure fallback, error.type/value probes, '
                 'failing fallback; per evaluation point the solver ranges over {succeeds, raises ValueError, raises a '
                 'custom Exception}; repeat length 0..3/None; on_error_handler call sequence compared. Outside: macros '
